@@ -92,6 +92,48 @@ func runC05(c *Ctx, idx int, o *Obs) {
 			}
 		}
 	}
+	if lens == "all" && idx%5 == 3 {
+		// zero-length terminal branches (identical sequences): the ends of the longest paths sit on branches of length 0
+		opts.LenCls += "+zerotips"
+		tips := modelTips(R)
+		if idx%10 == 3 {
+			for _, tp := range tips {
+				if r.Intn(2) == 0 {
+					tp.Len = ref.N(0)
+				}
+			}
+		} else {
+			// put the two ends of a longest path on zero-length branches (and keep the path the longest one)
+			d := R.Dist(ref.MLen)
+			bestK, best := "", -1.0
+			for k, v := range d {
+				if v > best || (v == best && k < bestK) {
+					bestK, best = k, v
+				}
+			}
+			ends := strings.SplitN(bestK, "\x00", 2)
+			for _, tp := range tips {
+				for _, e := range ends {
+					if tp.Name == e {
+						tp.Len = ref.N(0)
+					}
+				}
+			}
+		}
+	}
+	if lens == "all" && idx%10 == 8 {
+		// the apex of the longest path carries zero-length tips: (clade:long, z1:0, z2:0 ...)
+		opts.LenCls += "+zeroapex"
+		old := R.Root
+		old.Len = ref.N(totalLen(R) + 1)
+		old.Sup, old.PVal, old.Name = ref.Num{}, ref.Num{}, ""
+		kids := []*ref.Node{old}
+		for z := 0; z < 1+r.Intn(3); z++ {
+			kids = append(kids, &ref.Node{Name: fmt.Sprintf("zerotip%d", z), Len: ref.N(0)})
+		}
+		r.Shuffle(len(kids), func(i, j int) { kids[i], kids[j] = kids[j], kids[i] })
+		R = &ref.Tree{Root: &ref.Node{Children: kids}}
+	}
 	start := R.Newick()
 	o.Sample = Trunc(start, 400)
 	o.SetFP(start)
